@@ -8,6 +8,7 @@ PROP = {
         {"name": "sched_enum", "mode": "enum", "hang_s": 300},
         {"name": "event_timed", "quick": 3000, "thorough": 20000, "maxlen": 8, "workers": 4},
         {"name": "sched", "quick": 60000, "thorough": 2000000, "maxlen": 200, "hang_s": 30},
+        {"name": "sched_events", "quick": 40000, "thorough": 1000000, "maxlen": 200, "hang_s": 30},
     ],
     # race-detector tier: same programs, free-running threads, ThreadSanitizer instead of ASan/UBSan
     "variants": [{
